@@ -68,6 +68,11 @@ def run(tier, seed):
     progs = (common.gen_programs(n // 2, seed, vars=6, lists=2.0, random=2.0, shuffles=2.0, strings=1.0) +
              common.gen_programs(n // 4, seed + 1, vars=8, externals=2.0, lists=1.0) +
              common.gen_programs(n - n // 2 - n // 4, seed + 2, vars=4))
+    # several unbound externals, fallbacks disabled: the first continue fails with a message listing their names
+    for g in common.gen_programs(4 if quick else 40, seed + 3, vars=2, externals=2.0, ext_count=5, knots=1):
+        g["unbound_probe"] = True
+        g["id"] += "-unbound"
+        progs.append(g)
     corpus = [c for c in common.corpus_programs() if any(k in c["id"] for k in ("lists/", "shuffle", "rnd", "random"))]
     progs += corpus if not quick else corpus[:8]
     nviol = 0
@@ -124,7 +129,7 @@ def run_one(progs, build, tier, seed, ex_kw, flavour, what):
             rule="generated programs (multi-origin lists with equal item values, LIST_MIN/MAX/RANDOM, LIST_ALL/INVERT, "
                  "shuffles, RANDOM, many globals, unbound externals) and corpus list/shuffle/random stories x every explored "
                  "path replayed by %s; non-trivial: the path produced at least two lines" % what,
-            ex_kw=ex_kw, jobs=1 if flavour != "debug" else 6,
+            ex_kw=ex_kw, jobs=1 if flavour != "debug" else 6, case_kw=dict(probed=True),
             assumptions=["the story seed is set by the harness (hook); hash seeds differ per process and per map"])
     finally:
         runner.run_chunk = orig
